@@ -91,7 +91,18 @@ def run_case(idx, rng, tier, rep):
     k = rng.randrange(1, 6)
     cuts = sorted(rng.randrange(0, n + 1) for _ in range(k - 1))
     parts = [b - a for a, b in zip([0] + cuts, cuts + [n])]
-    cell = (direction, m, stt, cl, n, tuple(parts), rng.choice([None, 0, 7, 255]), rng.choice(ES),
+    pad = rng.choice([None, 0, 7, 255])
+    # every DATA frame must fit the default MAX_FRAME_SIZE including its padding (an oversized frame is
+    # refused with FRAME_SIZE_ERROR whatever the content-length says, which is not this property's business)
+    room = 16384 - (0 if pad is None else pad + 1)
+    fitted = []
+    for part in parts:
+        while part > room:
+            fitted.append(room)
+            part -= room
+        fitted.append(part)
+    parts = fitted
+    cell = (direction, m, stt, cl, n, tuple(parts), pad, rng.choice(ES),
             direction == 'response' and m == b'HEAD' and rng.random() < 0.5)
     if cell[7] == 'headers' and n:
         return
